@@ -769,6 +769,15 @@ impl Tamper {
         if let Some(b) = bad_remove {
             plans.push(("appended_invalid_remove", vec![Mutation::AppendProposals(vec![b])]));
         }
+        // a foreign key in a path node below the root, hashes consistent: only the members under
+        // that node derive its key and can notice (the others are not judged)
+        if path_len >= 2 {
+            plans.push(("path_node_1_from_top_foreign_key_consistent_hashes", vec![Mutation::ReplacePathNodeKey { pos: 1, key: fresh_key.clone() }]));
+        }
+        if path_len >= 3 {
+            plans.push(("path_node_2_from_top_foreign_key_consistent_hashes", vec![Mutation::ReplacePathNodeKey { pos: 2, key: fresh_key.clone() }]));
+            plans.push(("path_node_lowest_foreign_key_consistent_hashes", vec![Mutation::ReplacePathNodeKey { pos: path_len - 1, key: fresh_key.clone() }]));
+        }
         for (name, muts) in plans {
             let mut cg = w.g(c).clone();
             if cg.has_pending_commit() {
@@ -795,7 +804,35 @@ impl Tamper {
             }
             w.out.cov.bump(&format!("insider_built:{name}"));
             let Ok(bytes) = out.commit_message.to_bytes() else { continue };
+            // for a key below the root: which leaves are under the forged node
+            let visible_to: Option<(u32, u32)> = if name.starts_with("path_node_") && name.contains("_from_top_") || name.starts_with("path_node_lowest") {
+                let mut fg = cg.clone();
+                if !matches!(guarded(|| fg.apply_pending_commit()), Ok(Ok(_))) {
+                    continue;
+                }
+                let forged = vh::direct_path_public(&fg, fg.current_member_index())
+                    .into_iter()
+                    .skip(1)
+                    .find(|(_, k)| k.as_deref() == Some(fresh_key.as_slice()));
+                match forged {
+                    Some((node, _)) => Some(vh::tree_math::subtree(node)),
+                    None => {
+                        w.out.cov.bump(&format!("insider_not_applicable:{name}"));
+                        continue;
+                    }
+                }
+            } else {
+                None
+            };
             for &to in act.iter().filter(|i| **i != c) {
+                if let Some((lo, hi)) = visible_to {
+                    let l = w.leaf_of(to);
+                    if l < lo || l >= hi {
+                        w.out.cov.bump("insider_receiver_cannot_see_forged_node");
+                        continue;
+                    }
+                    w.out.cov.bump("insider_receiver_under_forged_node");
+                }
                 // top-node foreign key with consistent hashes can only be checked by members that
                 // derive that node's key, i.e. everybody (the root is on every path)
                 let class = name;
